@@ -19,6 +19,11 @@ def main():
     a = ap.parse_args()
     props = set(a.props.split(",")) if a.props else None
     results = []
+    if not a.k and not props:
+        r = subprocess.run(["python3-vt", os.path.join(HERE, "test_expr.py")], capture_output=True, text=True)
+        print(r.stdout.strip().splitlines()[-1] if r.stdout else r.stderr)
+        if r.returncode != 0:
+            results.append(("algebra unit tests", "FAILED"))
     for m in MUTATIONS:
         if a.k and a.k not in m["name"]:
             continue
